@@ -130,13 +130,17 @@ Fixpoint errs_ok (d : list Z) (e0 : option Z) (tr : list (unit_ * parser)) : Pro
 
 (* The state stack as a function of the GrammarTypes returned so far (innermost container first, the bottom
    element is ValueState): a key turns ObjectKey into ObjectValue, a completed value turns ObjectValue back
-   into ObjectKey, Start pushes, End pops its own kind, ErrorGrammar changes nothing. *)
+   into ObjectKey, Start pushes (never in key position), End pops its own kind, ErrorGrammar changes nothing. *)
 Definition valfix (st : list Z) : list Z :=
   match st with s :: t => (if s =? S_ObjectValue then S_ObjectKey else s) :: t | [] => [] end.
 
 Definition st_next (st : list Z) (g : Z) : option (list Z) :=
-  if g =? G_StartObject then Some (S_ObjectKey :: st)
-  else if g =? G_StartArray then Some (S_Array :: st)
+  if (g =? G_StartObject) || (g =? G_StartArray) then
+    match st with
+    | s :: _ => if s =? S_ObjectKey then None     (* no container in key position *)
+                else Some ((if g =? G_StartObject then S_ObjectKey else S_Array) :: st)
+    | [] => Some ((if g =? G_StartObject then S_ObjectKey else S_Array) :: st)
+    end
   else if g =? G_EndObject then
     match st with s :: t => if s =? S_ObjectKey then Some (valfix t) else None | [] => None end
   else if g =? G_EndArray then
